@@ -1,8 +1,9 @@
 import RV.Model.Rotation
 import RV.Model.Frame
 import RV.Model.Units
+import RV.Model.UnitsState
 import RV.Driver.Util
-open RV RV.Driver RV.Rot RV.Frame RV.Units
+open RV RV.Driver RV.Rot RV.Frame RV.Units RV.UnitsState
 
 /-! line protocol of `drv_c20`: `op hex*` → `hex*`; quaternions travel as `ix iy iz r` -/
 
@@ -32,6 +33,53 @@ def mxPairs : List Float → List (Float × Float)
 def exceptStr : Except Err (List Float) → String
   | .ok l => "ok " ++ hxs l
   | .error _ => "err -1"
+
+/-! unit state machine: `useq gSI G0 op*` with ops
+    `S idL idT idM L T M` | `S!` | `C idL idT idM L T M` | `C!` | `G g` | `A m x y z r vx vy vz ax ay az` -/
+def parseUnitSys : List String → Option (UnitSys Float × List String)
+  | a :: b :: c :: l :: t :: m :: r =>
+    match a.toNat?, b.toNat?, c.toNat? with
+    | some a, some b, some c => some (⟨a, b, c, fl l, fl t, fl m⟩, r)
+    | _, _, _ => none
+  | _ => none
+
+partial def parseOps : List String → Option (List (UOp Float))
+  | [] => some []
+  | "S!" :: r => (parseOps r).map (fun l => UOp.setUnits none :: l)
+  | "C!" :: r => (parseOps r).map (fun l => UOp.convert none :: l)
+  | "S" :: r => match parseUnitSys r with
+    | some (u, r') => (parseOps r').map (fun l => UOp.setUnits (some u) :: l)
+    | none => none
+  | "C" :: r => match parseUnitSys r with
+    | some (u, r') => (parseOps r').map (fun l => UOp.convert (some u) :: l)
+    | none => none
+  | "G" :: g :: r => (parseOps r).map (fun l => UOp.setG (fl g) :: l)
+  | "A" :: m :: x :: y :: z :: rr :: vx :: vy :: vz :: ax :: ay :: az :: r =>
+    (parseOps r).map (fun l => UOp.add ⟨fl m, fl x, fl y, fl z, fl rr, fl vx, fl vy, fl vz, fl ax, fl ay, fl az⟩ :: l)
+  | _ => none
+
+def errCode : Option UErr → String
+  | none => "ok"
+  | some .badUnits => "bad"
+  | some .populated => "populated"
+  | some .unitsNotSet => "notset"
+
+def pdataStr (p : PData Float) : String :=
+  hxs [p.m, p.x, p.y, p.z, p.r, p.vx, p.vy, p.vz, p.ax, p.ay, p.az]
+
+def useq (args : List String) : String :=
+  match args with
+  | g :: g0 :: ops =>
+    match parseOps ops with
+    | none => "bad-op"
+    | some l =>
+      let (s, st) := run (fl g) ⟨none, fl g0, []⟩ l
+      let us := match s.units with
+        | none => "none"
+        | some u => s!"{u.idL},{u.idT},{u.idM}"
+      " ".intercalate (st.map errCode) ++ " | " ++ us ++ " " ++ hx s.G ++ " " ++ toString s.parts.length ++
+        " " ++ " ".intercalate (s.parts.map pdataStr)
+  | _ => "bad-op"
 
 def step (toks : List String) : String :=
   match toks with
@@ -111,9 +159,12 @@ def step (toks : List String) : String :=
           | some (q2, [t]) => qs (slerp eps h q1 q2 t) | _ => bad
         | _ => bad
       | _ => bad
+    | "useq" => useq args
     | "com" => let c := com (mxPairs a); hxs [c.1, c.2]
     | "tocom" => hxs ((moveToCom (mxPairs a)).map (·.2))
     | "tohel" => hxs ((moveToHel (mxPairs a)).map (·.2))
+    | "tohelvar0" => hxs (moveToHelVar false a)
+    | "tohelvar1" => hxs (moveToHelVar true a)
     | "var1" => match a with
       | M :: r => hxs (moveToComVar1 M (rows1 r)) | _ => bad
     | "var2" => match a with
